@@ -56,6 +56,26 @@ func expandCond(v ssa.Value, truth bool, depth int) []Cond {
 			truth = !truth
 			continue
 		}
+		// `x == true`, `true == x`, `x != false`, ...: what a tagless switch makes of `case x:` (it compares the case
+		// expression with the constant true)
+		if bin, ok := v.(*ssa.BinOp); ok && (bin.Op == token.EQL || bin.Op == token.NEQ) {
+			inner, k, found := ssa.Value(nil), false, false
+			if c, isConst := bin.X.(*ssa.Const); isConst && c.Value != nil && c.Value.Kind() == constant.Bool {
+				inner, k, found = bin.Y, constant.BoolVal(c.Value), true
+			} else if c, isConst := bin.Y.(*ssa.Const); isConst && c.Value != nil && c.Value.Kind() == constant.Bool {
+				inner, k, found = bin.X, constant.BoolVal(c.Value), true
+			}
+			if found {
+				// (inner == k) has truth `truth`  <=>  inner has truth (truth == k) for ==, (truth != k) for !=
+				if bin.Op == token.EQL {
+					truth = truth == k
+				} else {
+					truth = truth != k
+				}
+				v = inner
+				continue
+			}
+		}
 		break
 	}
 	out := []Cond{{v, truth}}
@@ -322,4 +342,29 @@ func MustHold(fn *ssa.Function, est func(Cond) bool) map[*ssa.BasicBlock]bool {
 		}
 	}
 	return in
+}
+
+// EdgesWhere returns the blocks that are entered over a branch edge on which v is known to have the given truth
+// (directly, or through negations, comparisons with a bool constant and the phis of short-circuit operators used as
+// values - what `case a && b:` of a tagless switch becomes).
+func EdgesWhere(fn *ssa.Function, v ssa.Value, truth bool) []*ssa.BasicBlock {
+	var out []*ssa.BasicBlock
+	for _, p := range fn.Blocks {
+		if len(p.Instrs) == 0 {
+			continue
+		}
+		ifi, ok := p.Instrs[len(p.Instrs)-1].(*ssa.If)
+		if !ok || p.Succs[0] == p.Succs[1] {
+			continue
+		}
+		for i, s := range p.Succs {
+			for _, c := range expandCond(ifi.Cond, i == 0, 0) {
+				if c.V == v && c.True == truth {
+					out = append(out, s)
+					break
+				}
+			}
+		}
+	}
+	return out
 }
